@@ -14,6 +14,8 @@ import (
 	"runtime"
 	"sync"
 	"time"
+
+	vtime "github.com/samber/ro/internal/verifrt/vtime"
 )
 
 type vUFRow struct {
@@ -393,9 +395,11 @@ func vQuiesce() {
 
 func vLive() (int, int) { return 0, 0 }
 
-func vNow() int64         { return 0 }
-func vAdvance(d int64)    {}
-func vPendingTimers() int { return 0 }
+// The logical clock of the engine corresponds natively to the virtual clock of the
+// time shim (only effective when the library was compiled against the shim).
+func vNow() int64         { return vtime.NowNS() }
+func vAdvance(d int64)    { vtime.Advance(d) }
+func vPendingTimers() int { return vtime.Pending() }
 
 // vRunCase runs one harness with the given model and returns what happened.
 func vRunCase(c *vCase, h func()) (out vOutcome) {
@@ -406,6 +410,20 @@ func vRunCase(c *vCase, h func()) (out vOutcome) {
 	defer close(stopWD)
 	if !ctl.free {
 		go ctl.watchdog(stopWD)
+	}
+	vtime.ResetClock()
+	if os.Getenv("VERIF_TIMESHIM") == "1" {
+		// "time passes when nothing can run": fire the earliest timer when the replay is idle
+		go func() {
+			for {
+				select {
+				case <-stopWD:
+					return
+				case <-time.After(5 * time.Millisecond):
+					vtime.IdleAdvance(60 * time.Millisecond)
+				}
+			}
+		}()
 	}
 	out.ID = c.ID
 	out.Harness = c.Harness
